@@ -179,12 +179,20 @@ fn apply(
                 common.insert(rel.to_path_buf(), *fp);
             }
         }
+        // A delete that fails must not be recorded as done: the next run would find
+        // the file with no base and re-create it on the side where the user removed it.
         Action::DeleteA => {
-            let _ = std::fs::remove_file(&pa);
+            match std::fs::remove_file(&pa) {
+                Err(e) if e.kind() != std::io::ErrorKind::NotFound => return Err(e),
+                _ => {}
+            }
             common.remove(rel);
         }
         Action::DeleteB => {
-            let _ = std::fs::remove_file(&pb);
+            match std::fs::remove_file(&pb) {
+                Err(e) if e.kind() != std::io::ErrorKind::NotFound => return Err(e),
+                _ => {}
+            }
             common.remove(rel);
         }
         Action::Conflict(ConflictKind::DeleteVsModify) => {
